@@ -18,6 +18,7 @@ def check(repo, rep, tier):
     rep.run(rcl.rule_clause_scope, cm, rep, 'C01.V3')
     rep.run(rcl.rule_clause_head, cm, rep, 'C01.H1')
     rep.run(rcl.rule_term_code_denotes_term, cm, rep, 'C01.H2')
+    rep.run(re_.rule_unquote_delimiters, cm, rep, 'C01.H3')
     rep.run(rcl.rule_program_structure, cm, rep, 'C01.V6')
     rep.run(rcl.rule_program_grouping, cm, rep, 'C01.G0')
     rep.run(rc.rule_body_rules, cm, rep, 'C01.N1', 'all', scope)
